@@ -173,11 +173,11 @@ CHECKS = {
  'C03': dict(
     category='proof',
     text=('Rocq theorems (Proofs/VerifierProofs.v) about the machine model: for EVERY stack instruction (arithmetic, logic, comparison, conversion, constants, string functions, stack shuffles, jz/jmp: about 60 opcodes, the domain of the abstract typing function eff) and EVERY machine state whose operand-stack types satisfy the instruction typing rule, execution never raises TYPE_MISMATCH / STACK_EMPTY / any host exception, '
-          'leaves memory and devices untouched and produces exactly the abstract result types (eff_sound); lifted by induction to straight-line blocks of any length (block_safe); the only traps possible are value errors. The whole-program part is decided per module and per run by the EXTRACTED monitor (Models/Monitor.v) replaying the real run (tie: complete final state equality with the real machine): '
+          'leaves memory and devices untouched and produces exactly the abstract result types (eff_sound); lifted by induction to straight-line blocks of any length (block_safe); the only traps possible are value errors. Control flow (Models/VerifierCfg.v, Proofs/VerifierCtl.v, VerifierCfgProofs.v): stack instructions move the program counter only through jmp/jz and leave halt/interrupt flags alone (eff_ctl); a certificate of stack types per code address that passes the local executable check check_cert against the DECODED code bytes is an invariant of every execution inside the certified region, through jumps and loops, for any number of instructions (cfg_step, cfg_run, cfg_no_type_confusion: tick returns exactly the state exec produced, memory/frame/trace untouched, never a type trap or host exception). The whole-program part is decided per module and per run by the EXTRACTED monitor (Models/Monitor.v) replaying the real run (tie: complete final state equality with the real machine): '
           'static linear decode and jump targets on instruction boundaries, and at every tick the premise of eff_sound, no forbidden trap, every cell holding a value of its declared type (layout certificate from the compiler symbol tables), pc on a boundary, operand-stack depth at statement starts = entry depth + active GOSUBs. '
           'Programs: corpus, the operator x type-pair matrix with operands in variables, control/memory programs, argument/parameter/assignment type pairs (run only if the compiler accepts them), at the configurations.'),
     design_ref='DESIGN.md 5/C03 and 11.1',
-    note=('Trusted: Coq kernel, extraction, OCaml driver, Python harness incl. build_cert (layout certificate via qvm.memlayout). NOT proved: a whole-program verifier soundness theorem (control-flow joins, memory typing, reference opcodes): that part is a run-time monitor, i.e. exploration of the paths actually run. Open findings: D08, D14, D21, D26.'),
+    note=('Trusted: Coq kernel, extraction, OCaml driver, Python harness incl. build_cert (layout certificate via qvm.memlayout). NOT proved: a whole-program verifier soundness theorem (the certificate theorem covers regions of stack instructions with their jumps and joins; memory typing, frames, calls and reference opcodes are outside it and no certificate is computed for compiled modules yet): that part is a run-time monitor, i.e. exploration of the paths actually run. Open findings: D08, D14, D21, D26.'),
     technique='Rocq proof of instruction/block type safety over the machine model + extracted run-time monitor (translation validation of each run)'),
  'C10': dict(
     category='proof',
